@@ -565,6 +565,7 @@ func isIntegerType(c byte) bool {
 	return isFloatType(c) ||
 		c == 'B' || c == 'b' ||
 		c == 's' || c == 'S' ||
+		c == 'I' || c == 'i' ||
 		c == 'L' || c == 'l'
 }
 
